@@ -407,6 +407,28 @@ theorem keywordIs_origin : keywordIs "ORIGIN" "ORIGIN".toList = true := by decid
 theorem noNl_featHdr : NoNl featHdr := noNl_lit _ (by decide)
 theorem noNl_originKw : NoNl "ORIGIN".toList := noNl_lit _ (by decide)
 
+/-- the lines of `build x`, concretely -/
+theorem build_lines (x : Sequence) (h : wfLayout x = true) :
+    lines (build x MapOrders.id) =
+      locusLine x.metadata.locus :: (specsLines (headerSpecs x (sortStrings (x.metadata.other.map Prod.fst)))
+        ++ featHdr :: (featsLines (x.features.map fkOf) ++ "ORIGIN".toList
+            :: (oLines 0 (chunks 60 x.sequence) ++ ["//".toList]))) := by
+  have hw := h
+  simp only [wfLayout, Bool.and_eq_true, bne_iff_ne, ne_eq, decide_eq_true_eq] at hw
+  obtain ⟨⟨⟨⟨⟨⟨⟨⟨⟨⟨⟨⟨⟨hlocus, _⟩, _⟩, _⟩, _⟩, _⟩, _⟩, _⟩, _⟩, _⟩, hfeat⟩, hne⟩, hlet⟩, _⟩ := hw
+  obtain ⟨_, hfp⟩ := features_read x.features hfeat
+  have hhp := header_lines_props x h
+  rw [build_as_lines, lines_unl_append, origin_lines x.sequence hne hlet]
+  · simp only [List.append_assoc, List.cons_append, List.nil_append]
+  · intro l hl
+    simp only [List.mem_append, List.mem_cons, List.not_mem_nil, or_false] at hl
+    rcases hl with (((hl | hl) | hl) | hl) | hl
+    · rw [hl]; exact noNl_locusLine _ hlocus
+    · exact (hhp l hl).1
+    · rw [hl]; exact noNl_featHdr
+    · exact (hfp l hl).1
+    · rw [hl]; exact noNl_originKw
+
 /-- the strict column reader recovers `abs x` from what `build` writes for a record of the layout domain -/
 theorem strict_layout_id (x : Sequence) (h : wfLayout x = true) :
     strictRead (build x MapOrders.id) = some (abs x) := by
@@ -414,29 +436,21 @@ theorem strict_layout_id (x : Sequence) (h : wfLayout x = true) :
   simp only [wfLayout, Bool.and_eq_true, bne_iff_ne, ne_eq, decide_eq_true_eq] at hw
   obtain ⟨⟨⟨⟨⟨⟨⟨⟨⟨⟨⟨⟨⟨hlocus, _⟩, _⟩, _⟩, _⟩, _⟩, _⟩, _⟩, _⟩, _⟩, hfeat⟩, hne⟩, hlet⟩, hlen⟩ := hw
   obtain ⟨ols, hol, hread, hnt⟩ := origin_section x.sequence hne hlet (by simpa using hlen)
+  have hol' := origin_lines x.sequence hne hlet
+  have hols : ols = oLines 0 (chunks 60 x.sequence) := by
+    rw [hol] at hol'
+    exact List.append_cancel_right hol'
+  subst hols
   obtain ⟨hfr, hfp⟩ := features_read x.features hfeat
   have hhp := header_lines_props x h
-  have hlines : lines (build x MapOrders.id) =
-      locusLine x.metadata.locus :: (specsLines (headerSpecs x (sortStrings (x.metadata.other.map Prod.fst)))
-        ++ featHdr :: (featsLines (x.features.map fkOf) ++ "ORIGIN".toList :: (ols ++ ["//".toList]))) := by
-    rw [build_as_lines, lines_unl_append, hol]
-    · simp only [List.append_assoc, List.cons_append, List.nil_append]
-    · intro l hl
-      simp only [List.mem_append, List.mem_cons, List.not_mem_nil, or_false] at hl
-      rcases hl with (((hl | hl) | hl) | hl) | hl
-      · rw [hl]; exact noNl_locusLine _ hlocus
-      · exact (hhp l hl).1
-      · rw [hl]; exact noNl_featHdr
-      · exact (hfp l hl).1
-      · rw [hl]; exact noNl_originKw
   unfold strictRead
-  rw [hlines]
+  rw [build_lines x h]
   simp only []
   rw [cutAt_append (keywordIs "FEATURES") _ featHdr _ (fun l hl => (hhp l hl).2) keywordIs_featHdr]
   simp only []
   rw [cutAt_append (keywordIs "ORIGIN") _ "ORIGIN".toList _ (fun l hl => (hfp l hl).2) keywordIs_origin]
   simp only []
-  rw [cutAt_append (fun l => l == "//".toList) ols "//".toList [] (fun l hl => by simpa using hnt l hl) (by simp)]
+  rw [cutAt_append (fun l => l == "//".toList) _ "//".toList [] (fun l hl => by simpa using hnt l hl) (by simp)]
   simp only [true_or, if_true]
   rw [locus_read _ hlocus, header_read x h, hfr, hread]
   rfl
